@@ -56,7 +56,7 @@ type c02Plan struct {
 var c02BodyMuts = []string{"tx-drop", "tx-dup", "tx-swap", "tx-byte", "tx-other", "uncles-drop", "uncles-add", "uncles-byte", "uncles-other",
 	"wd-drop", "wd-dup", "wd-byte", "wd-strip", "wd-strip", "wd-add-empty", "wd-add-empty", "wd-other", "wd-empty-list"}
 var c02RcMuts = []string{"rc-drop", "rc-dup", "rc-swap", "rc-byte", "rc-empty", "rc-other-one"}
-var c02HdrMuts = []string{"hdr-field", "hdr-proof-byte", "hdr-proof-other", "hdr-header-other", "hdr-number"}
+var c02HdrMuts = []string{"hdr-field", "hdr-proof-byte", "hdr-proof-other", "hdr-header-other", "hdr-number", "hdr-gap"}
 var c02ByteMuts = []string{"bit", "bit", "trunc", "extend", "offset", "extend-zeros"}
 var c02KeyMuts = []string{"key-selector", "key-byte", "key-trunc", "key-extend", "key-number", "key-insert", "key-cut-front"}
 
@@ -375,6 +375,30 @@ func mutateHeader(content []byte, m c02Mut, other *histBlock) []byte {
 		if oraw != nil {
 			hraw = oraw
 		}
+	case "hdr-gap":
+		// the same header and proof in another byte string: filler bytes behind the offset table (both offsets
+		// raised accordingly), or between the header and the proof (second offset raised)
+		out := headerContentRaw(hraw, proof)
+		if len(out) < 8 {
+			return out
+		}
+		k := 1 + m.A%7
+		filler := prfBytes(m.V, "gap", k)
+		o0, o1 := binary.LittleEndian.Uint32(out[0:]), binary.LittleEndian.Uint32(out[4:])
+		if m.B%2 == 0 {
+			res := append([]byte{}, out[:8]...)
+			binary.LittleEndian.PutUint32(res[0:], o0+uint32(k))
+			binary.LittleEndian.PutUint32(res[4:], o1+uint32(k))
+			res = append(res, filler...)
+			return append(res, out[8:]...)
+		}
+		if int(o1) <= len(out) {
+			res := append([]byte{}, out[:o1]...)
+			binary.LittleEndian.PutUint32(res[4:], o1+uint32(k))
+			res = append(res, filler...)
+			return append(res, out[o1:]...)
+		}
+		return out
 	}
 	return headerContentRaw(hraw, proof)
 }
